@@ -27,6 +27,8 @@ import (
 var ndHarnesses = map[string]func(){
 	"Harness_C11": Harness_C11,
 	"Harness_C13": Harness_C13,
+	"Harness_C14_Conflict": Harness_C14_Conflict,
+	"Harness_C14_ToPos":    Harness_C14_ToPos,
 }
 
 // toPos is the subject of C14; here it is the identity on offsets under symx (natively the real one runs).
